@@ -209,6 +209,30 @@ Example C11_fall_through_example :
   pc_notified s = true /\ pc_err s = false /\ got_close s = true.
 Proof. vm_compute. repeat split. Qed.
 
+(* PEER DEATH reaches the session: every epoll event on the control connection that carries the hang-up bit calls
+   onRemoteClose (-> exitErr -> Session.Close), whatever else the event carries and whatever a read on the fd
+   would find - data, EAGAIN, EOF, or an ERROR such as ECONNRESET when the peer went away with bytes of ours
+   unread in its socket; and Session.Close releases a parked reader in every stream state.  The dispatch table
+   EventConn.handle_event is compared with the real handleEvent by C18 and, for the hang-up masks with a read
+   that fails, by this property's harness (dispatch-hangup). *)
+Theorem C11_peer_death_releases : forall e rr evs, EventConn.ev_rdhup e = true ->
+  closes_session e rr = true /\
+  (let s := run (evs ++ [SClose]) init in rd s = RParked -> wake_enabled s = true).
+Proof. exact peer_death_releases. Qed.
+Print Assumptions C11_peer_death_releases.
+
+Theorem C11_eof_closes_session : forall e, EventConn.ev_rdhup e = false -> EventConn.ev_in e = true -> closes_session e RdEOF = true.
+Proof. exact eof_closes_session. Qed.
+Print Assumptions C11_eof_closes_session.
+
+(* the hang-up test must not be made conditional on "nothing to read": with `RDHUP && !IN` (VARIANT
+   handle_event_in_first) an event IN|RDHUP whose read fails calls nobody - the fd is edge-triggered, no further
+   event comes, the session is never closed (harness family peer-gone-unread) *)
+Example C11_hangup_after_read_loses_peer_death :
+  let e := {| EventConn.ev_rdhup := true; EventConn.ev_in := true; EventConn.ev_out := true |} in
+  closes_session_with handle_event_in_first e RdErr = false /\ closes_session e RdErr = true.
+Proof. vm_compute. split; reflexivity. Qed.
+
 (* non-vacuity: the race the property is about — data arrives after the reader's failed test and
    before it parks; then a deadline case; then peer close *)
 Example C11_example_race :
